@@ -132,15 +132,54 @@ Theorem plain_text_duplicate_names_refuted :
 Proof. exists [(w_q, KN); (w_q, KN)], w_q. repeat split. Qed.
 
 (* name matching with more cursor columns than compiled columns: two compiled columns with the same
-   label, lookup by the first LABEL OBJECT returns the second column *)
+   label.  Before 0c26c9c the scan was skipped here (3 distinct cursor names = 3 compiled columns) and
+   the first LABEL OBJECT resolved to the second column; now every shared key raises *)
 Definition w_foo := KS (NP 20).  Definition w_p := KS (NP 21).  Definition w_star := KS (NP 22).
 Definition w_rcs2 : list rc :=
   [ {| rc_keyname := w_foo; rc_name := w_foo; rc_objs := [KO 1; w_foo] |};
     {| rc_keyname := w_foo; rc_name := w_foo; rc_objs := [KO 2; w_foo] |};
     {| rc_keyname := w_star; rc_name := w_star; rc_objs := [KO 3; w_star; w_star] |} ].
-Theorem name_matching_wrong_column_refuted :
-  lookup (keymap_of (raw_byname w_rcs2 false [(w_foo, KN); (w_foo, KN); (w_p, KN); (w_q, KN)]) 3 true) (KO 1) = Ok 1.
+Example name_matching_duplicate_names_raise :
+  let km := keymap_of (raw_byname w_rcs2 false [(w_foo, KN); (w_foo, KN); (w_p, KN); (w_q, KN)]) 3 true in
+  map (lookup km) [KO 1; KO 2; w_foo; w_p; w_q] = [Raise Ambiguous; Raise Ambiguous; Raise Ambiguous; Ok 2; Ok 3].
 Proof. vm_compute. reflexivity. Qed.
+
+(* a primary name that two merged records share always switches the scan on (whatever the number of
+   compiled columns): the number of distinct names is then smaller than the number of records *)
+Lemma NoDup_map_inj_on : forall {A B} (f : A -> B) (l : list A) a b,
+  NoDup (map f l) -> In a l -> In b l -> f a = f b -> a = b.
+Proof.
+  intros A B f. induction l as [|x l IH]; intros a b Hn Ha Hb E; [destruct Ha|].
+  cbn in Hn. inversion Hn as [|? ? Hx Hn']; subst. destruct Ha as [->|Ha], Hb as [->|Hb]; try reflexivity.
+  - exfalso. apply Hx. rewrite E. now apply in_map.
+  - exfalso. apply Hx. rewrite <- E. now apply in_map.
+  - now apply IH.
+Qed.
+
+Lemma shared_name_dupes_path : forall rw n r1 r2,
+  In r1 rw -> In r2 rw -> r1 <> r2 -> m_key r1 = m_key r2 -> dupes_path rw n = true.
+Proof.
+  intros rw n r1 r2 H1 H2 Hne Hk. unfold dupes_path. apply orb_true_iff. right. apply negb_true_iff, Nat.eqb_neq.
+  intro Hlen. apply Hne.
+  assert (Hnd : NoDup (map fst (by_key_of rw))) by (unfold by_key_of; apply dict_of_NoDup).
+  assert (Hincl : incl (map fst (by_key_of rw)) (map m_key rw)).
+  { intros k Hin. unfold by_key_of, dict_of in Hin. apply (dupdate_keys_In key_eqb key_eqb_eq) in Hin as [Hin|[]].
+    rewrite map_map in Hin. exact Hin. }
+  assert (Hn2 : NoDup (map m_key rw)).
+  { apply NoDup_incl_NoDup with (l := map fst (by_key_of rw)); [exact Hnd|rewrite !map_length; lia|exact Hincl]. }
+  exact (NoDup_map_inj_on m_key rw r1 r2 Hn2 H1 H2 Hk).
+Qed.
+
+Theorem ambiguous_raises_shared_name : forall rw n tr k r1 r2,
+  n <> 0 -> In r1 rw -> In r2 rw -> m_idx r1 <> m_idx r2 ->
+  m_key r1 = m_key r2 ->
+  In k (m_rend r1 :: m_objs r1) -> In k (m_rend r2 :: m_objs r2) ->
+  lookup (keymap_of rw n tr) k = Raise Ambiguous.
+Proof.
+  intros rw n tr k r1 r2 Hn H1 H2 Hne Hk K1 K2.
+  apply (ambiguous_raises_guarded rw n tr k r1 r2); try assumption.
+  apply (shared_name_dupes_path rw n r1 r2); try assumption. intros ->. now apply Hne.
+Qed.
 
 (* ---------- textual positional mode ---------- *)
 Lemma textual_loop_spec : forall rcs desc s seen rw, textual_loop rcs s desc seen = Ok rw ->
@@ -295,7 +334,7 @@ Proof.
   assert (OE : forall excl p, In p (dict_of key_eqb (obj_entries rw excl)) -> In (snd p) rw).
   { intros excl [k0 r0] Hp. unfold dict_of in Hp. apply dupdate_In_sub in Hp as [Hp|[]].
     apply In_obj_entries in Hp as (Hp & _). exact Hp. }
-  destruct (negb (length (by_key_of rw) =? n)).
+  destruct (negb (length (by_key_of rw) =? n) || negb (length (by_key_of rw) =? length rw)).
   - apply dupdate_In_sub in H as [H|H].
     + apply dupdate_In_sub in H as [H|H].
       * right. apply in_map_iff in H as (k' & E & _). injection E as _ <-. eauto.
